@@ -15,9 +15,12 @@ def streamBytes (img : Img) (dir : List DirEnt) (ty : Nat) : Option ByteArray :=
   some (ByteArray.mk bs.toArray)
 
 /-- /proc/<tid>/status lines that legitimately differ between the harness's read (target blocked,
-    untraced) and the writer's (target ptrace-stopped) -/
+    untraced) and the writer's (target ptrace-stopped): scheduling and signal state, and the resident-set /
+    page-table accounting, which moves whenever somebody (the writer, the harness) reads the target's
+    memory through /proc/<pid>/mem or ptrace and faults pages in -/
 def statusVolatile (l : String) : Bool :=
-  ["State:", "TracerPid:", "voluntary_ctxt_switches:", "nonvoluntary_ctxt_switches:", "SigPnd:", "ShdPnd:", "SigQ:"].any (l.startsWith ·)
+  ["State:", "TracerPid:", "voluntary_ctxt_switches:", "nonvoluntary_ctxt_switches:", "SigPnd:", "ShdPnd:", "SigQ:",
+   "VmHWM:", "VmRSS:", "RssAnon:", "RssFile:", "RssShmem:", "VmPTE:", "VmSwap:"].any (l.startsWith ·)
 
 def maskStatus (b : ByteArray) : List String :=
   ((String.fromUTF8? b).getD "").splitOn "\n" |>.filter (fun l => !statusVolatile l)
@@ -80,22 +83,43 @@ def run (kv : List (String × String)) : IO Res := do
       return .propfail s!"system info (cpus {si.ncpu}, family {si.level}, revision {si.revision}, vendor {si.vendor}) ≠ /proc/cpuinfo ({n}, {level}, {rev}, {vendor})" tags
     tags := "sysinfo.checked" :: tags
   | none => tags := "cpuinfo.unparsed" :: tags
-  -- linker debug data through caller-supplied auxv
-  match get kv "dso", lc.cfg.auxv with
-  | some dso, some _ =>
-    match dso.splitOn ":" with
-    | [dyn, _rdebug, maps] =>
-      let wantMaps : List (Nat × Nat × List Nat) := (splitList maps ";").filterMap (fun m => match m.splitOn "." with
+  -- linker debug data: the auxiliary-vector information (caller-supplied values first, the kernel's for what
+  -- is missing — unless the caller's are complete) leads to a linker list; the stream must show that list
+  let some auxvB ← readFile s!"{base}.auxv" | return .bad "auxv"
+  let pairs := auxvPairs auxvB.toList
+  let direct := match lc.cfg.auxv with
+    | some (a, b, c, d) => auxvFromDirect a b c d
+    | none => auxvFromDirect 0 0 0 0
+  let eff := auxvFillAll direct pairs
+  let kernelPhdr := (pairs.find? (fun p => p.1 == AT_PHDR)).map (·.2)
+  if lc.cfg.auxv.isSome then tags := (if direct.isComplete then "auxv.direct.complete" else "auxv.direct.partial") :: tags
+  let parseDso (v : String) : Option (Nat × Nat × Nat × Nat × List (Nat × Nat × List Nat)) :=
+    match v.splitOn ":" with
+    | [dyn, hdr, maps] =>
+      let (ver, brk, ldb) := match hdr.splitOn "." with
+        | [a, b, c] => (a.toNat?.getD 0, b.toNat?.getD 0, c.toNat?.getD 0)
+        | _ => (1, 0x1234560, 0x7f0000001000)         -- the synthetic r_debug's constants
+      some (dyn.toNat?.getD 0, ver, brk, ldb, (splitList maps ";").filterMap (fun m => match m.splitOn "." with
         | [a, l, n] => do
           let nb ← unhex n
           some (← a.toNat?, ← l.toNat?, encode16 ((String.fromUTF8? (ByteArray.mk nb.toArray)).getD "").toList)
-        | _ => none)
-      let some dd := findStream lc.dir ST_LINUX_DSO_DEBUG | return .propfail "linker debug stream missing although the program headers were supplied" tags
+        | _ => none))
+    | _ => none
+  let expected : Option String :=
+    match eff.phdr, eff.phnum with
+    | some ph, some _ => if some ph == kernelPhdr then get kv "rdso" else get kv "dso"
+    | _, _ => none
+  tags := (match eff.phdr with
+    | some ph => if some ph == kernelPhdr then "dso.kernel-auxv" else "dso.caller-auxv"
+    | none => "dso.none") :: tags
+  match expected.bind parseDso with
+  | some (dyn, ver, brk, ldb, wantMaps) =>
+      let some dd := findStream lc.dir ST_LINUX_DSO_DEBUG | return .propfail "linker debug stream missing although the auxiliary-vector information leads to a linker list" tags
       let some rec := decodeDsoDebug lc.img dd | return .propfail "linker debug stream unreadable" tags
       let gotMaps := rec.maps.map (fun m => (m.addr, m.ld, (readString lc.img.rd m.nameRva).getD []))
       if gotMaps != wantMaps then return .propfail s!"linker list in the dump {gotMaps.map (·.1)} ≠ the target's link_map chain {wantMaps.map (·.1)} (or a name / dynamic address differs)" tags
-      if some rec.dynamic != dyn.toNat? then return .propfail "dynamic section address differs" tags
-      if rec.version != 1 || rec.brk != 0x1234560 || rec.ldbase != 0x7f0000001000 then return .propfail "r_debug fields differ" tags
+      if rec.dynamic != dyn then return .propfail "dynamic section address differs" tags
+      if rec.version != ver || rec.brk != brk || rec.ldbase != ldb then return .propfail "r_debug fields differ" tags
       -- the dynamic section bytes follow the record
       let dynLen := dd.size - 36
       let some got := lc.img.bytes (dd.rva + 36) dynLen | return .propfail "dynamic bytes" tags
@@ -106,8 +130,7 @@ def run (kv : List (String × String)) : IO Res := do
         | none => pure ()
         k := k + 1
       tags := "dso.checked" :: tags
-    | _ => return .bad "dso field"
-  | _, _ => pure ()
+  | none => pure ()
   return .ok tags (some s!"{lc.maps.length}/{wantFds.length}/{tags.eraseDups.length}/{lc.thr.length}")
 
 end Mdw.Drv.C18
